@@ -102,7 +102,7 @@ pub fn main() -> i32 {
             let d: u8 = args.rest.get(1).and_then(|x| x.parse().ok()).unwrap_or(4);
             searchrun::quiet_panics();
             let (board, _, _) = searchrun::open(&fen, &[]).unwrap();
-            let case = searchrun::Case { fen: fen.clone(), history: vec![], limits: searchrun::Limits::default(), max_depth: Some(d), cut: searchrun::Cut::None };
+            let case = searchrun::Case { fen: fen.clone(), history: vec![], limits: searchrun::Limits::default(), max_depth: Some(d), cut: searchrun::Cut::None , elapsed_ms: None };
             let t = std::time::Instant::now();
             let out = searchrun::run(&board, &case, &searchrun::Opts { clear_cache: true, observe: false, neutral: false });
             let n = crate::board::transposition_table::TRANSPOSITION_TABLE.read().unwrap().len();
